@@ -426,6 +426,96 @@ func TestEnv(t *testing.T) {
 	})
 }
 
+// The standard start-up flow (Manager.LoadJSONFileAndEnv) is LoadJSON
+// followed by ApplyEnvVars: applying the environment on top of a loaded
+// configuration must keep every loaded setting that no variable overrides.
+func TestLoadThenEnv(t *testing.T) {
+	leg := ev.L("load-then-env", "one section x 1-6 settings loaded with LoadJSON (accepted), then ApplyEnvVars with no variable set, or with one scalar setting supplied through its variable: the saved form must be identical to the one before (no variable), or differ only in the overridden setting; list and map settings (trusted peers, addresses, headers, credentials) are included in the loaded part; non-trivial = a list/map/non-default setting was loaded; distinct by section + settings")
+	rapid.Check(t, func(t *rapid.T) {
+		s := sections[rapid.IntRange(0, len(sections)-1).Draw(t, "section")]
+		base := defaultJSON(t, s)
+		n := rapid.IntRange(1, 6).Draw(t, "nfields")
+		used := map[string]bool{}
+		var desc []string
+		for i := 0; i < n; i++ {
+			f := s.fields[rapid.IntRange(0, len(s.fields)-1).Draw(t, "field")]
+			if used[f.path] {
+				continue
+			}
+			used[f.path] = true
+			v := drawValue(t, f.kind)
+			if !v.wellformed {
+				continue
+			}
+			setPath(base, f.path, v.v)
+			desc = append(desc, fmt.Sprintf("%s=%s", f.path, canonJSON(v.v)))
+		}
+		sort.Strings(desc)
+		j, _ := json.Marshal(base)
+		c := s.mk()
+		var lerr error
+		noPanic(t, s.name+".LoadJSON", func() { lerr = c.LoadJSON(j) })
+		if lerr != nil {
+			t.Skip("not accepted")
+		}
+		before, err := c.ToJSON()
+		if err != nil {
+			t.Fatalf("%s: ToJSON: %v", s.name, err)
+		}
+		// optionally override one scalar through the environment
+		var over *field
+		var overV value
+		var cands []field
+		for _, f := range s.fields {
+			if f.env != "" && !used[f.path] {
+				cands = append(cands, f)
+			}
+		}
+		if len(cands) > 0 && rapid.Bool().Draw(t, "override") {
+			f := cands[rapid.IntRange(0, len(cands)-1).Draw(t, "envfield")]
+			v := drawValue(t, f.kind)
+			if v.wellformed && v.env != "" && !v.zero {
+				over, overV = &f, v
+				name := strings.ToUpper(s.envKey) + "_" + f.env
+				os.Setenv(name, v.env)
+				defer os.Unsetenv(name)
+				desc = append(desc, "env:"+name+"="+v.env)
+			}
+		}
+		var aerr error
+		noPanic(t, s.name+".ApplyEnvVars", func() { aerr = c.ApplyEnvVars() })
+		if aerr != nil {
+			if over == nil {
+				t.Fatalf("%s: ApplyEnvVars with no variable set failed on a loaded configuration: %v\nsettings: %v", s.name, aerr, desc)
+			}
+			leg.Case(s.name+" "+strings.Join(desc, " "), false, "env-rejected")
+			return
+		}
+		after, err := c.ToJSON()
+		if err != nil {
+			t.Fatalf("%s: ToJSON after ApplyEnvVars: %v", s.name, err)
+		}
+		var bm, am map[string]interface{}
+		json.Unmarshal(before, &bm)
+		json.Unmarshal(after, &am)
+		if over != nil {
+			// the overridden setting may change; everything else must not
+			if shown, ok := getPath(am, over.path); ok {
+				setPath(bm, over.path, shown)
+			}
+		}
+		if cb, ca := canonJSON(bm), canonJSON(am); cb != ca {
+			t.Fatalf("%s: applying the environment changed loaded settings\nbefore: %s\nafter:  %s\nsettings: %v", s.name, cb, ca, desc)
+		}
+		_ = overV
+		cls := []string{"section:" + s.name}
+		if over != nil {
+			cls = append(cls, "override")
+		}
+		leg.Case(s.name+" "+strings.Join(desc, " "), len(desc) > 0, cls...)
+	})
+}
+
 // The full configuration file through config.Manager.
 func TestManager(t *testing.T) {
 	leg := ev.L("manager", "a full configuration file (all sections registered as cmdutils does, raft or crdt, badger or leveldb) with 1-4 settings of 1-2 sections changed; Manager.LoadJSON must reject or accept; accepted => Manager.ToJSON shows the values and is a fixpoint under load/save, the manager's display form hides secrets; non-trivial = accepted with a non-default value; distinct by settings")
